@@ -564,19 +564,9 @@ func Gen(c *core.Ctx) {
 		levels = [][]hop{full, mid, mid, small, small, tiny}
 		planTxt = "thorough: full at depth 1, mid at 2-3, small (first 6 core ops) at 4-5, tiny (3 ops) at 6"
 	}
-	if p := os.Getenv("C04_PLAN"); strings.HasPrefix(p, "L:") { // development aid, e.g. L:full,mid,core,small
-		levels = nil
-		for _, n := range strings.Split(p[2:], ",") {
-			levels = append(levels, map[string][]hop{"full": full, "mid": mid, "core": cor, "small": small, "tiny": tiny}[n])
-		}
-		depth, planTxt = len(levels), p
-	}
 	ex["bfs_alphabet_sizes"] = fmt.Sprintf("full=%d mid=%d core=%d small=%d tiny=%d; a clock advance is not tried as the last operation of a history", len(full), len(mid), len(cor), len(small), len(tiny))
 	plan := func(d int) []hop { return levels[d-1] }
 	ex["bfs_alphabet"] = planTxt
-	if os.Getenv("C04_PLAN") == "random" { // development aid: random histories only
-		depth = 0
-	}
 	explore(c, depth, plan, ex)
 	bfsH := stHist - corpusH
 
